@@ -1,7 +1,8 @@
 (* C02 — the chosen segmentation is a minimum-cost lattice path (Viterbi optimality).
    Only property theorems (closed by `exact`) and the decidable obligations on regenerated facts. *)
 From Coq Require Import List ZArith NArith String Lia.
-From SudachiVerif Require Import Model.Lattice Model.LatticeM Proofs.LatticeProofs Proofs.LatticeMProofs.
+From SudachiVerif Require Import Model.Lattice Model.LatticeM Model.BuildLattice Proofs.LatticeProofs Proofs.LatticeMProofs
+     Proofs.BuildLatticeProofs Proofs.BuildOptimal.
 From SudachiVerif Require Generated.ConnFacts.
 Open Scope Z_scope.
 
@@ -44,6 +45,27 @@ Theorem C02_i32_exact_if_bounded :
                mconnect_eos checked conn (embL L) = Ok (connect_eos conn L).
 Proof. exact i32_exact_if_bounded. Qed.
 Print Assumptions C02_i32_exact_if_bounded.
+
+(* The same for the tokenizer's own loop (LatticeBuilder::build_lattice): positions where no word ends are skipped, the
+   last provider is asked again when nothing was created.  Whatever the dictionary and the OOV providers offer at each
+   position, the EOS cost is attained by a chain of offered candidates covering the text and is <= the cost of every such
+   chain; and an EosBosDisconnect (when every position offers something) means that no such chain exists. *)
+Theorem C02_build_optimal :
+  forall (conn : N -> N -> Z) (cands : nat -> list node) (fallback : nat -> option node) (n : nat),
+    (forall p m, In m (offered cands fallback p) -> node_wf n p m) ->
+    forall L r i c, (0 < n)%nat -> build conn cands fallback n = Some (L, (r, i, c)) ->
+    (exists p, chainP (Offered cands fallback) 0 n p /\ path_cost conn p = c) /\
+    (forall p, chainP (Offered cands fallback) 0 n p -> c <= path_cost conn p).
+Proof. exact build_optimal. Qed.
+Print Assumptions C02_build_optimal.
+
+Theorem C02_build_disconnect_means_no_chain :
+  forall (conn : N -> N -> Z) (cands : nat -> list node) (fallback : nat -> option node) (n : nat),
+    (forall p m, In m (offered cands fallback p) -> node_wf n p m) ->
+    (0 < n)%nat -> (forall p, (p < n)%nat -> offered cands fallback p <> nil) ->
+    build conn cands fallback n = None -> forall p, ~ chainP (Offered cands fallback) 0 n p.
+Proof. exact build_disconnect_means_no_chain. Qed.
+Print Assumptions C02_build_disconnect_means_no_chain.
 
 (* ---- obligations on facts regenerated from the source on every run ---- *)
 (* the matrix index stays inside num_left * num_right for in-range ids *)
